@@ -16,20 +16,21 @@ def _c13_out_kind(o):
 
 
 PROPS["C13"] = dict(
-    level_text="Theorems (Props/C13.lean) prove for EVERY schedule (any list of events timerFires / pop i / send i / attemptDone i / complete i outcome; impossible events are no-ops, ties between the timer and a completion are both orders) of the select!-loop state machine of speculative_execution::execute behind the idempotence gate of run_request_no_side_effects, for every policy and plan: a non-idempotent request (or one without a policy) has exactly one execution, at most one running fiber and at most one attempt on the wire at every point (nonidempotent_single_fiber); at most 1+max executions are started, never one after a fiber reported the plan exhausted (started_le, no_start_after_exhaustion); the shared plan hands every target out at most once, in plan order, so the attempts on the wire are on pairwise distinct targets (handed_is_plan_prefix, distinct_targets, outstanding_attempts_distinct); the returned value is the first consumed result that is a success or definitive error, otherwise the last error (EmptyPlan if none) and then only when nothing runs and nothing may be started, and conversely it has returned as soon as that holds (result_spec, first_real_answer_wins, otherwise_last_error, returns_when_exhausted); a not-yet-returned call always has a running fiber or an armed timer that will start one (never_waits_on_nothing - the all-branches-disabled state in which select! would panic and the useless-timer-only state are unreachable) and every fair infinite schedule returns after at most 4+3*max select! branches (always_returns, branches_bounded); can_be_ignored is stated outright over the whole error universe (canBeIgnored_err_iff). The model is tied to the code by a differential run in virtual time (tokio paused clock): the real execute over scripted fibers (exhaustive delay x outcome grids incl. ties, 1-5 fibers, max 0..4) and the real run_request_no_side_effects (gate + SharedPlan + real fibers, scripted retry policy) over synthetic targets, with a model-independent oracle.",
-    level_note="Trusted: Lean kernel + {propext, Classical.choice, Quot.sound}; hand-written model Model/Speculative.lean (tie = differential harness through the cfg(scylla_verif) pass-throughs speculative::execute / can_be_ignored / exec::run_request). Partial: futures::select!'s pseudo-random choice among ready branches is the model's tie nondeterminism (the model driver explores every order of simultaneous wake-ups and acts as a checker there); tokio's timer and FuturesUnordered are trusted to deliver wake-ups in virtual-time order; a fiber is abstract in the theorems (it pops targets, has at most one attempt outstanding, eventually completes - its retry logic is C06); Session-level glue (how is_idempotent and the policy reach RequestExecutionParams) and real sockets are not exercised (no mock-node end-to-end run).",
+    level_text="Theorems (Props/C13.lean) prove for EVERY schedule (any list of events timerFires / pop i / send i / attemptDone i / complete i outcome / deadline; impossible events are no-ops, ties between the timer and a completion are both orders) of the select!-loop state machine of speculative_execution::execute behind the idempotence gate and under the optional client-side timeout of run_request_no_side_effects, for every policy, plan and timeout: a non-idempotent request (or one without a policy) has exactly one execution and at most one running fiber at every point (nonidempotent_single_execution, unconditional) and therefore - given the named hypothesis Sequential (no fiber sends while its previous attempt is outstanding; not enforced by the machine, proved for every trace of the C06 retry loop Exec.exec under any interleaving: sequential_of_exec_fibers) - at most one attempt on the wire (nonidempotent_single_fiber, one_attempt_per_fiber); at most 1+max executions are started, never one after a fiber reported the plan exhausted (started_le, no_start_after_exhaustion); the shared plan hands every target out at most once, in plan order, so the attempts on the wire are on pairwise distinct targets (handed_is_plan_prefix, distinct_targets, outstanding_attempts_distinct); the user-visible call returns exactly one of: the first consumed result that is a success or definitive error | the last error (EmptyPlan if none) after every started execution finished and none may be started | RequestTimeout when the deadline takes effect before any real answer was consumed (result_spec, result_characterisation, first_real_answer_wins, otherwise_last_error, timeout_at_deadline, no_timeout_without_deadline, returns_when_exhausted); a not-yet-returned call always has a running fiber or an armed timer that will start one (never_waits_on_nothing - the all-branches-disabled state in which select! would panic and the useless-timer-only state are unreachable), every fair infinite schedule returns after at most 4+3*max select! branches (always_returns, branches_bounded) and with a timeout the call has returned once the deadline passed, without any fairness (deadline_forces_return); can_be_ignored is stated outright over the whole error universe (canBeIgnored_err_iff). The model is tied to the code by a differential run in virtual time (tokio paused clock): the real execute over scripted fibers (exhaustive delay x outcome grids incl. ties, 1-5 fibers, max 0..4) and the real run_request_no_side_effects (gate + request_timeout + SharedPlan + real fibers, scripted retry policy) over synthetic targets, with a model-independent oracle.",
+    level_note="Trusted: Lean kernel + {propext, Classical.choice, Quot.sound}; hand-written model Model/Speculative.lean (tie = differential harness through the cfg(scylla_verif) pass-throughs speculative::execute / can_be_ignored / exec::run_request). Partial: futures::select!'s pseudo-random choice among ready branches (and the order timeout-vs-runner at the deadline instant) is the model's tie nondeterminism (the model driver explores every order of simultaneous wake-ups and acts as a checker there); tokio's timer and FuturesUnordered are trusted to deliver wake-ups in virtual-time order; the retry logic inside a fiber is C06 - C13 uses of it only that its attempts form a sequence (hypothesis Sequential, discharged against Model/Exec.lean); Session-level glue (how is_idempotent, the policy and the timeout reach RequestExecutionParams) and real sockets are not exercised (no mock-node end-to-end run).",
     lean_modules=["ScyllaVerif.Props.C13"],
-    rule="case = one classification query (ign), one scripted schedule of synthetic executions through speculative_execution::execute (spec), or one scripted plan through run_request_no_side_effects (gate); every distinct case line counts (each returns a value, an error kind or HANG)",
+    rule="case = one classification query (ign), one scripted schedule of synthetic executions through speculative_execution::execute (spec), or one scripted plan, optionally with a client-side request timeout, through run_request_no_side_effects (gate); every distinct case line counts (each returns a value, an error kind or HANG)",
     trivial=lambda c, o: o in ("bad-case",),
     out_kind=_c13_out_kind,
     trusted=[
-        "Model/Speculative.lean transcribes speculative_execution.rs:108-155 (can_be_ignored), 165-218 (execute: retries_remaining, FuturesUnordered as the list `running`, the fused sleep as `sleepArmed`, last_error, the None branch, the return test), error.rs:451-488 (can_speculative_retry), execution.rs:71-86 (SharedPlan = one popped list), 417-484 (the gate; the single-fiber arm `.await.unwrap_or(Err(EmptyPlan))` is the same machine with retries 0 and no timer), 519-644 (a fiber seen from outside)",
+        "Model/Speculative.lean transcribes speculative_execution.rs:108-155 (can_be_ignored), 165-218 (execute: retries_remaining, FuturesUnordered as the list `running`, the fused sleep as `sleepArmed`, last_error, the None branch, the return test), error.rs:451-488 (can_speculative_retry), execution.rs:71-86 (SharedPlan = one popped list), 486-501 (tokio::time::timeout around the runner = Event.deadline: runner dropped, RequestTimeout), 417-484 (the gate; the single-fiber arm `.await.unwrap_or(Err(EmptyPlan))` is the same machine with retries 0 and no timer), 519-644 (a fiber seen from outside)",
         "futures::select! polls the ready branches in pseudo-random order: at one virtual instant every order of the pending wake-ups (timer, fibers) is explored by Drive/C13.lean and the implementation's line must be one of the results (echo) - on tie-free schedules the comparison is exact (start time of every execution, consumption order, result, return time; for gate: every attempt (time, target), result, return time, max attempts in flight)",
         "tokio::time (paused clock, ms granularity) and FuturesUnordered deliver wake-ups in deadline order; Fuse<Sleep> reports terminated after firing until re-set; FuturesUnordered::is_terminated is reset by push (the empty-async_tasks-while-retries-remain path is exercised by the corpus and the grids)",
         "the harness's oracle uses its own hand-written ignorable/definitive table (from the property statement), independent of the Lean table; harness/src/c13.rs also carries a developer self-test (`mut<k>` cases, never generated) that runs a local copy of the loop with seeded bugs through the same oracle",
     ],
     assumptions=[
-        "always_returns: fairness = while the call has not returned, some enabled select! branch is eventually taken (each started fiber eventually completes, the armed timer eventually fires); some_branch_enabled shows such a branch exists in every reachable state; retry_interval is finite",
+        "always_returns: fairness = while the call has not returned, some enabled select! branch is eventually taken (each started fiber eventually completes, the armed timer eventually fires); some_branch_enabled shows such a branch exists in every reachable state; retry_interval is finite (with a request_timeout no fairness is needed: deadline_forces_return)",
+        "nonidempotent_single_fiber / in_flight_le / outstanding_attempts_distinct (the parts that count attempts on the wire): Sequential schedule = each fiber awaits its attempt before sending the next; proved for the C06 loop (exec_fiber_sequential, sequential_of_exec_fibers) and observed by the gate cases (max attempts in flight)",
         "distinct_targets / outstanding_attempts_distinct: the plan itself has no duplicates (C05)",
     ],
     partial=[
